@@ -26,6 +26,14 @@ NEEDS = {
  "C14b": "fill, clear(), then extend / compare the reused string",
  "C16b": "from_acgt_bytes_hashn on a read with at least two non-ACGT bytes",
  "C10b": "Kmer::from_ascii with more than K letters",
+ "C15b": "a slice compared with its own rc() view (same string, start, length; different is_rc) over a region that is not reverse-palindromic",
+ "C18b": "a caller that reads NodeKmer::node_id from `for node in &graph` (ids shifted by one, k-mers still right)",
+ "C12b": "an even-K k-mer that is palindromic in every mirrored pair except the two central bases (and every Kmer2)",
+ "C11b": "u128-backed partial-width types (Kmer48, Kmer40) with a non-A among the leading K-32 bases",
+ "C02b": "a walk that returns to its own seed k-mer: unbranched cycle, homopolymer self-loop, odd-K hairpin",
+ "C05b": "one canonical k-mer with at least 65536 observations (count wraps instead of saturating)",
+ "C08b": "a read of exactly k bases",
+ "C07b": "k == p (underflow in the first window)",
 }
 def detection(sid):
     out = []
